@@ -1828,7 +1828,9 @@ def _normalise_line(line: str) -> str:
                 module = ast.parse(opener + stripped + "\n    pass")
                 return ast.unparse(module.body[0]).split("\n")[2]
             except (SyntaxError, IndexError, ValueError):
-                return line
+                # not a continuation header after all: an ordinary statement whose
+                # first name merely starts like one (``else_led . on ( )``)
+                break
     try:
         module = ast.parse(line)
     except SyntaxError:
